@@ -532,3 +532,19 @@ Example contract5_nontrivial :
   option_map (fun s => (s5_inflight s, s5_collision s)) (run5 (init5 2 false) (firstn 7 h))
     = Some (1, Some (mkPub5 Q1 1 4 4 None)).
 Proof. vm_compute. split; reflexivity. Qed.
+
+(** everything the v5 state machine owes, and that [clean] hands all of it back (index order) *)
+Definition held5 (s : state5) : list request5 :=
+  map R5Publish (somes (s5_pub s)) ++ map R5PubRel (ones (s5_rel s))
+  ++ match s5_collision s with Some p => [R5Publish p] | None => [] end.
+
+Theorem clean5_returns_held s : snd (clean5 s) = held5 s /\ held5 (fst (clean5 s)) = [].
+Proof.
+  unfold clean5, held5. cbn [fst snd]. sproj5. split; [reflexivity|].
+  rewrite somes_repeat_none.
+  assert (E : ones (repeat false (length (s5_rel s))) = []).
+  { destruct (ones _) as [| x t] eqn:Eo; [reflexivity|]. exfalso.
+    assert (Hin : In x (ones (repeat false (length (s5_rel s))))) by (rewrite Eo; left; reflexivity).
+    apply ones_in in Hin. rewrite bit_repeat_false in Hin. discriminate. }
+  rewrite E. reflexivity.
+Qed.
